@@ -1,0 +1,9 @@
+//go:build verif
+// +build verif
+
+package hap
+
+// VerifWriteGate is called by EncryptedWrite between sealing the frames and writing them to the socket.
+var VerifWriteGate = func(con *Connection, sealed []byte) {}
+
+func verifWriteGate(con *Connection, sealed []byte) { VerifWriteGate(con, sealed) }
